@@ -39,6 +39,9 @@ pub struct Ctx {
     pub known: Vec<KnownFinding>,
     /// scale factor for case counts (XV_SCALE env, default 1.0) - used by sensitivity experiments
     pub scale: f64,
+    /// how often a schedule-dependent replay is attempted (a failure in any attempt counts):
+    /// 3 for `xv replay`, 1 for the regression tier at the start of every check
+    pub replay_attempts: usize,
 }
 
 impl Ctx {
